@@ -3,7 +3,7 @@
    Print Assumptions.  Model: Cluster/Flat.v (generic) and Cluster/FlatQ.v
    (exact rationals, the instance run against the implementation). *)
 From Coq Require Import QArith List Bool Arith Relations.
-From LV Require Import Cluster.Flat Cluster.FlatProofs Cluster.FlatLinkage Cluster.FlatTextbook Cluster.FlatUnique Cluster.FlatQ Cluster.FlatQProofs.
+From LV Require Import Cluster.Flat Cluster.FlatProofs Cluster.FlatLinkage Cluster.FlatTextbook Cluster.FlatUnique Cluster.FlatQ Cluster.FlatQProofs Cluster.FlatRevert.
 Import ListNotations.
 Local Open Scope nat_scope.
 
@@ -21,6 +21,17 @@ Theorem C05_keys_distinct :
     NoDup (keys (flat leb link d n thr)).
 Proof. exact flat_keys_nodup. Qed.
 Print Assumptions C05_keys_distinct.
+
+(* the other output orientation (revert=True: item -> key of its cluster + 1) describes the same partition:
+   every item below n is a key exactly once, nothing else is, and two items carry the same value iff they
+   share a cluster *)
+Theorem C05_revert_partition :
+  forall (V : Type) (leb : V -> V -> bool) (link : list V -> V) (d : nat -> nat -> V) (n : nat) (thr : V),
+    let cl := flat leb link d n thr in
+    (forall x, count_occ Nat.eq_dec (map fst (revert cl)) x = if x <? n then 1 else 0) /\
+    (forall x y kx ky, In (x, kx) (revert cl) -> In (y, ky) (revert cl) -> (kx = ky <-> together cl x y)).
+Proof. exact flat_revert_partition. Qed.
+Print Assumptions C05_revert_partition.
 
 (* on return one cluster is left, or no two clusters have linkage <= threshold;
    for every total preorder on the carrier (single, complete and average linkage alike) *)
